@@ -96,11 +96,11 @@ class Spec(PropSpec):
     partial_note = ("two crash-image theorems, both for every history, block size, coin and draw sequence: c07_crash_image_partial "
                     "(alphabet without create_dir_all / remove_dir_all; hypothesis: no class of FsSafe.v - which excludes every "
                     "successful rename of a regular file and every creation of a file at a name a file left - and no KindSwap) and "
-                    "c07_crash_image_renames_partial (the same alphabet plus renames of regular files within one directory, onto a "
+                    "c07_crash_image_renames_partial (the same alphabet plus renames of regular files, onto a "
                     "fresh name or over an existing file, with crashes before and after the flushing sync_dir; hypothesis: no KNOWN "
                     "class - the narrow classes of known_findings.txt as gen/fam_fs.py decides them, mirrored by FsKnown.v and "
                     "cross-checked on every generated history). Still excluded by the second theorem beyond the known classes: "
-                    "create_dir_all / remove_dir_all, renames between two directories (oracle + narrow class RenameCrossDir only), "
+                    "create_dir_all / remove_dir_all, a sync of exactly one of the two directories of an unflushed rename between different directories (the flush from the new directory's side: oracle + narrow class RenameCrossDir only; unflushed and rolled back by a crash: covered), "
                     "any creation of a file at a name a file left since the last crash (the known finding Recreate is narrower; the "
                     "re-creations outside it are asserted by the oracle), a rename onto a name a directory was removed from since "
                     "the last crash, a crash on a dangling durable subtree")
